@@ -34,6 +34,7 @@ static W_PROBE: &[(Op, u32)] = &[
     (Op::AddFilter, 4),
     (Op::StartListener, 4),
     (Op::Sync, 2),
+    (Op::Introspection, 5),
 ];
 
 pub static DEF: CheckDef = CheckDef {
